@@ -162,4 +162,117 @@ Section Sort.
       rewrite (nc_antisym t (snd a) (snd z)). destruct (nc t (snd a) (snd z)); simpl; congruence.
   Qed.
 End Sort.
+
+(* ---- the stable sort is unique: what the insertion sort of the model returns is what ANY stable sort returns ------- *)
+Section Stable.
+  Notation P := (nat * pv)%type.
+  (* strictly before: less, or equivalent and earlier in the input *)
+  Definition slt (x y : P) : Prop :=
+    nc t (snd x) (snd y) = Lt \/ (nc t (snd x) (snd y) = Eq /\ fst x < fst y).
+
+  Lemma slt_trans x y z : slt x y -> slt y z -> slt x z.
+  Proof.
+    unfold slt. pose proof (nc_trans t (snd x) (snd y) (snd z)) as T.
+    intros [A|[A A']] [B|[B B']]; rewrite A, B in T; simpl in T; rewrite T; auto. right; split; auto; lia.
+  Qed.
+  Lemma slt_irrefl x : ~ slt x x.
+  Proof. unfold slt. rewrite nc_refl. intros [A|[_ A]]; [discriminate|lia]. Qed.
+
+  Lemma sorted_perm_unique (l1 : list P) : forall l2,
+    StronglySorted slt l1 -> StronglySorted slt l2 -> Permutation l1 l2 -> l1 = l2.
+  Proof.
+    induction l1 as [|a l1 IH]; intros l2 S1 S2 Pm.
+    - apply Permutation_nil in Pm. auto.
+    - destruct l2 as [|b l2]; [apply Permutation_sym, Permutation_nil in Pm; discriminate|].
+      inv S1. inv S2. rewrite Forall_forall in *.
+      assert (a = b).
+      { assert (Ia : In a (b :: l2)) by (eapply Permutation_in; [exact Pm|left; auto]).
+        assert (Ib : In b (a :: l1)) by (eapply Permutation_in; [apply Permutation_sym; exact Pm|left; auto]).
+        destruct Ia as [|Ia]; auto. destruct Ib as [|Ib]; auto.
+        exfalso. apply (slt_irrefl a). eapply slt_trans; [apply H2; exact Ib | apply H4; exact Ia]. }
+      subst b. f_equal. apply IH; auto. eapply Permutation_cons_inv; eauto.
+  Qed.
+
+  Definition idx_after (x : P) (l : list P) : Prop := Forall (fun y => fst x < fst y) l.
+
+  Lemma sort_ins_stable x l : ok (snd x) -> all_ok_vals nat l -> StronglySorted slt l -> idx_after x l ->
+    exists l', sort_ins t x l = Ok l' /\ Permutation (x :: l) l' /\ StronglySorted slt l'.
+  Proof.
+    intros Hx. induction l as [|y r IH]; intros Hl Hs Hi; simpl.
+    - eexists; split; [reflexivity|]. split; auto. constructor; constructor.
+    - inv Hl. inv Hs. inv Hi. rewrite cmp3_spec by auto.
+      assert (XY : nc t (snd y) (snd x) <> Lt -> slt x y).
+      { intros N. unfold slt. rewrite (nc_antisym t (snd y) (snd x)). destruct (nc t (snd y) (snd x)); simpl; auto. congruence. }
+      destruct (nc t (snd y) (snd x)) eqn:C.
+      + eexists; split; [reflexivity|]. split; auto.
+        constructor. constructor; auto. constructor; [apply XY; discriminate|].
+        rewrite Forall_forall in *. intros z I. eapply slt_trans; [apply XY; discriminate|auto].
+      + destruct (IH H2 H3 H6) as (l' & E & Pm & S). rewrite E. eexists; split; [reflexivity|]. split.
+        * rewrite perm_swap. constructor. exact Pm.
+        * constructor; auto. rewrite Forall_forall in *. intros z I.
+          apply (Permutation_in _ (Permutation_sym Pm)) in I. destruct I as [<-|I]; auto.
+          left. exact C.
+      + eexists; split; [reflexivity|]. split; auto.
+        constructor. constructor; auto. constructor; [apply XY; discriminate|].
+        rewrite Forall_forall in *. intros z I. eapply slt_trans; [apply XY; discriminate|auto].
+  Qed.
+
+  Lemma sort_by_stable l : all_ok_vals nat l -> StronglySorted (fun x y : P => fst x < fst y) l ->
+    exists l', sort_by t l = Ok l' /\ Permutation l l' /\ StronglySorted slt l'.
+  Proof.
+    induction l as [|x r IH]; intros Hl Hi; simpl.
+    - eexists; split; [reflexivity|]. split; auto. constructor.
+    - inv Hl. inv Hi. destruct (IH H2 H3) as (r' & E & Pm & S). rewrite E.
+      assert (Hr' : all_ok_vals nat r').
+      { unfold all_ok_vals in *. rewrite Forall_forall in *. intros z I. apply H2. eapply Permutation_in; [apply Permutation_sym; exact Pm|auto]. }
+      assert (Hi' : idx_after x r').
+      { unfold idx_after. rewrite Forall_forall in *. intros z I. apply H4. eapply Permutation_in; [apply Permutation_sym; exact Pm|auto]. }
+      destruct (sort_ins_stable x r' H1 Hr' S Hi') as (l' & E' & P' & S'). exists l'. split; auto. split; auto.
+      eapply Permutation_trans; [|exact P']. constructor. exact Pm.
+  Qed.
+
+  (* any permutation of the input that is sorted and keeps equivalent items in input order IS the model's result *)
+  Lemma stable_sort_unique l l2 : all_ok_vals nat l -> StronglySorted (fun x y : P => fst x < fst y) l ->
+    Permutation l l2 -> StronglySorted slt l2 -> sort_by t l = Ok l2.
+  Proof.
+    intros Hl Hi Pm S2. destruct (sort_by_stable l Hl Hi) as (l' & E & P' & S').
+    rewrite E. f_equal. apply sorted_perm_unique; auto.
+    eapply Permutation_trans; [apply Permutation_sym; exact P'|exact Pm].
+  Qed.
+
+  (* [slt] in terms of pg.lt / pg.eq *)
+  Lemma slt_spec x y : ok (snd x) -> ok (snd y) ->
+    (slt x y <-> (lt t (snd x) (snd y) = Ok true \/ (eq (snd x) (snd y) = true /\ fst x < fst y))).
+  Proof.
+    intros Hx Hy. unfold slt. rewrite (lt_spec t ROK f), (eq_spec t ROK f) by auto. rewrite is_eq_true.
+    destruct (nc t (snd x) (snd y)); simpl; split; intros [A|A]; auto; try discriminate; try (destruct A; discriminate).
+  Qed.
+  Lemma combine_seq_sorted (vals : list pv) : forall k,
+    StronglySorted (fun x y : P => fst x < fst y) (combine (seq k (length vals)) vals).
+  Proof.
+    induction vals as [|v r IH]; intros k; simpl; constructor; auto.
+    apply Forall_forall. intros [i w] I. apply in_combine_l in I. apply in_seq in I. simpl. lia.
+  Qed.
+  Lemma combine_ok (vals : list pv) k : Forall (fun v => ok v) vals -> all_ok_vals nat (combine (seq k (length vals)) vals).
+  Proof.
+    intros H. unfold all_ok_vals. apply Forall_forall. intros [i w] I. apply in_combine_r in I.
+    rewrite Forall_forall in H. simpl. auto.
+  Qed.
+
+  Definition before (x y : P) : Prop :=
+    lt t (snd x) (snd y) = Ok true \/ (eq (snd x) (snd y) = true /\ fst x < fst y).
+
+  Lemma stable_sort_law (vals : list pv) l2 : Forall (fun v => ok v) vals ->
+    Permutation (combine (seq 0 (length vals)) vals) l2 -> StronglySorted before l2 ->
+    sort_by t (combine (seq 0 (length vals)) vals) = Ok l2.
+  Proof.
+    intros Hv Pm S. apply stable_sort_unique; [apply combine_ok; exact Hv | apply combine_seq_sorted | exact Pm |].
+    assert (H2 : all_ok_vals nat l2).
+    { pose proof (combine_ok vals 0 Hv) as H. unfold all_ok_vals in *. rewrite Forall_forall in *.
+      intros z I. apply H. eapply Permutation_in; [apply Permutation_sym; exact Pm|auto]. }
+    clear Pm. induction S; constructor.
+    - apply IHS. inv H2; auto.
+    - inv H2. rewrite Forall_forall in *. intros z I. apply slt_spec; auto. exact (H z I).
+  Qed.
+End Stable.
 End WithTable.
